@@ -41,7 +41,13 @@ def run(eng, R):
         """[(dimension or None for 'any other', excluded dimensions, closed expression, line)] - branches on `self.ndim == k` are understood"""
         f = get_func(p, "ConfidenceLevel", fname)
         out = []
-        for conds, e, env in assigned_exprs(f.node, target):
+        from ..termform import path_exprs
+
+        def stores(st, target=target):
+            return [st.value for t in st.targets if " ".join(ast.unparse(t).split()) == target] if isinstance(st, ast.Assign) else []
+
+        # path-sensitive: if/elif chains and conditional expressions (the canonical form mixes the two) are both branches
+        for conds, e, env in path_exprs(f.node, stores):
             n, excl = None, []
             for t, pol in conds:
                 if isinstance(t, ast.Compare) and len(t.ops) == 1 and isinstance(t.ops[0], ast.Eq) and isinstance(t.comparators[0], ast.Constant) and is_self(getattr(t.left, "value", None)) \
@@ -105,9 +111,16 @@ def run(eng, R):
 
     # ---- 2-d instance used for iminuit contours
     im = get_func(p, "MinimizerIMinuit", "contour")
-    forms = assigned_exprs(im.node, "_cl")
+    # what is handed to the backend as `cl=` (through a local or directly; path-sensitive, so a helper written out or a temporary is read through)
+    from ..termform import path_exprs
+
+    def _cl_args(st):
+        own = [st] if not hasattr(st, "body") else [x for x in (getattr(st, "test", None), getattr(st, "iter", None)) if x is not None]
+        return [k.value for o in own for c in ast.walk(o) if isinstance(c, ast.Call) and isinstance(c.func, ast.Attribute) and c.func.attr == "mncontour" for k in c.keywords if k.arg == "cl"]
+
+    forms = path_exprs(im.node, _cl_args)
     if not forms:
-        raise AnalysisError("MinimizerIMinuit.contour: contour confidence level `_cl` not found")
+        raise AnalysisError("MinimizerIMinuit.contour: no confidence level (`cl=`) is handed to mncontour")
     two = Repl("sigma", ast.Name(id="sigma", ctx=ast.Load())).visit(for_dim(branch_for(br_cl, 2), 2))
     want = Normalizer().norm(two).simplify()
     for conds, e, env in forms:
@@ -123,8 +136,9 @@ def run(eng, R):
         R.ob("H-2d", "MinimizerIMinuit.contour:_cl", got == want, (im.file, e.lineno),
              "the contour confidence level is `%s`; the two-dimensional conversion gives `%s`" % (got.canon(), want.canon()))
     # the cl is what is handed to the backend
-    src = ast.unparse(im.node)
-    R.ob("H-2d", "MinimizerIMinuit.contour:use", "mncontour(parameter_name_1, parameter_name_2, size=_numpoints, cl=_cl)" in src, (im.file, im.lineno), "the 2-d confidence level must be passed to mncontour")
+    mc = [c for c in ast.walk(im.node) if isinstance(c, ast.Call) and isinstance(c.func, ast.Attribute) and c.func.attr == "mncontour" and any(k.arg == "cl" for k in c.keywords)]
+    ok = len(mc) == 1 and [ast.unparse(a) for a in mc[0].args] == ["parameter_name_1", "parameter_name_2"]
+    R.ob("H-2d", "MinimizerIMinuit.contour:use", ok, (im.file, im.lineno), "the 2-d confidence level must be passed to mncontour for the two requested parameters")
 
     # ---- setters / getters
     for prop, other, lo_excl in (("cl", "_sigma", True), ("sigma", "_cl", False)):
@@ -140,7 +154,12 @@ def run(eng, R):
         fg = CL.find_prop(prop).fget
         src = ast.unparse(fg.node)
         calc = "_calc_cl_from_sigma" if prop == "cl" else "_calc_sigma_from_cl"
-        R.ob("S-inval", "ConfidenceLevel.%s.fget:lazy" % prop, ("if self._%s is None" % prop) in src and calc in src and ("return self._%s" % prop) in src, (fg.file, fg.lineno),
+        oprop = "sigma" if prop == "cl" else "cl"
+        lazy = [i for i in ast.walk(fg.node) if isinstance(i, ast.If) and " ".join(ast.unparse(i.test).split()) == "self._%s is None" % prop]
+        fills = [a for i in lazy for a in ast.walk(i) if isinstance(a, ast.Assign) and any(self_attr(t) == "_" + prop for t in a.targets)
+                 and (calc in ast.unparse(a.value) or any(self_attr(x) == oprop for x in ast.walk(a.value)))]   # through the conversion helper, or the helper written out
+        R.ob("S-inval", "ConfidenceLevel.%s.fget:lazy" % prop, len(lazy) == 1 and len(fills) >= 1 and len(fills) == len([a for a in ast.walk(fg.node) if isinstance(a, ast.Assign) and any(self_attr(t) == "_" + prop for t in a.targets)])
+             and ("return self._%s" % prop) in src, (fg.file, fg.lineno),
              "%s getter must recompute from the other representation exactly when its own cache is empty" % prop)
     dn = CL.find_prop("delta_nll").fset
     R.ob("S-inval", "ConfidenceLevel.delta_nll.fset", "self.sigma = np.sqrt(new_delta_nll)" in ast.unparse(dn.node) or "self.sigma = sqrt(new_delta_nll)" in ast.unparse(dn.node), (dn.file, dn.lineno),
@@ -236,7 +255,7 @@ def run(eng, R):
                             r[1] = "arrow on the %s side [%s]: displayed tail probability %s with sigma converted from cl=%s - expected %s" % (
                                 side, state_txt, tail, conv, "tail 1-cl and sigma(2cl-1) (one-sided bound)" if other_given else "tail (1-cl)/2 and sigma(cl) (central interval)")
                         tgt_call = [c for c in ast.walk(items["x"]) if isinstance(c, ast.Call) and isinstance(c.func, ast.Attribute) and c.func.attr == "_find_cost_cut"] if "x" in items else []
-                        tc = next((k.value for c in tgt_call for k in c.keywords if k.arg == "target_cost"), None)
+                        tc = next((common.kwarg(c, "target_cost", 2) for c in tgt_call if common.kwarg(c, "target_cost", 2) is not None), None)  # _find_cost_cut(name, guess, target_cost, ...)
                         tnorm = Normalizer().norm(ev.close(tc, facts, env)).canon() if tc is not None else "?"
                         sig = Normalizer().norm(ast.parse("ConfidenceLevel(cl=%s).sigma" % ast.unparse(clarg), mode="eval").body).canon() if clarg is not None else "?"
                         want_t = "min_cost + %s^2" % sig
